@@ -44,7 +44,13 @@
        zileave / zfleave / zwleave, constructors ZTLoop / ZKLoop: C02_vm_runs_loop_throw, C02_vm_runs_loop_breakout, C02_ref_runs_loop_exit
        and the per-loop theorems C02_vm_runs_loops_exit / _for_exit / _while_exit), and by breakOut to the name the scope of the round
        itself carries (ZIterBreak, ZForBreak, ZWhileBreakCond, ZWhileBreakBody, inside C02_vm_runs_loops / _for / _while).
-       NOT covered by the simulation: exitWith inside an operand or in a block chosen by switch, a throw or breakOut inside an operand or out of a case block, a throw past the last handler, breakOut to a name no scope carries, waitUntil, nil operands, a while loop
+       EARLY EXITS OUT OF THE CHOSEN BLOCK OF A SWITCH: exitWith (the switch yields the handler's value), breakOut to the name of the switch's own
+       scope, a throw taken outside the switch, breakOut to a scope outside (ZSwitchExit, ZSwitchBreak, ZLSwitchThrow, ZLSwitchBreak:
+       C02_vm_switch_exitwith, C02_vm_switch_own_breakout, C02_vm_switch_throw, C02_vm_switch_breakout and their reference sides).
+       AN EXIT RAISED INSIDE AN OPERAND: breakOut in every operand position (the waiting operands are dropped with the regions pop_clearing
+       clears: C02_vm_operand_breakout), a throw where nothing waits on the stack (C02_vm_operand_throw_partial), also in x = e / private _x = e.
+       NOT covered by the simulation: exitWith inside an operand, a throw raised while evaluated operands wait on the stack (right operand,
+       later array elements), a throw past the last handler, breakOut to a name no scope carries, waitUntil, nil operands, a while loop
        with an empty body or a non-boolean condition - for these the
        per-construct theorems below and the program-level differential are the evidence;
      - the compiler emits the post-order of the source (code blocks, binary operators, arrays);
@@ -684,7 +690,7 @@ Qed.
    the reference state Matches, and what lies on the operand stack above ft's base are nils only (throw_any pops frames without
    clearing their parts of the stack; at statement level these hold nothing else, which is what `under` / Fresh now say).
    A loop standing as a statement one of whose rounds is left by a throw is such a statement too (ZTLoop, section LEAVING A LOOP below).
-   Not covered: a throw inside an operand, out of a case block, or past the last handler. *)
+   A switch whose chosen block is left by a throw likewise (ZLSwitchThrow).  Not covered: a throw inside an operand, or past the last handler. *)
 Theorem C02_ref_runs_throw : forall s reg b x s', zthrow s reg b x s' ->
   exists f0, forall f, f0 <= f -> eval_block f s b reg = (OThrow x, s').
 Proof. exact (proj1 (proj2 (proj2 (proj2 (proj2 (proj2 (proj2 (proj2 ref_runs_z)))))))). Qed.
@@ -859,7 +865,7 @@ Theorem C02_vm_runs_loop_throw : forall s e x s', zloopleave s e (AThrow x) s' -
       exists jn', c_values c' = VNil :: jn' ++ below_t /\ under jn'.
 Proof.
   exact (fun s e x s' H reg r c f restf below pre post inner ft rest h jn below_t A FR EC EP =>
-           proj1 (proj2 (proj2 (proj2 (proj2 (proj2 (proj2 (proj2 (proj2 (proj2 vm_runs_z))))))))) s e (AThrow x) s' H
+           expr_leaves_atm _ _ _ _ (proj1 (proj2 (proj2 (proj2 (proj2 (proj2 (proj2 (proj2 (proj2 (proj2 vm_runs_z))))))))) s e (AThrow x) s' H)
              reg r c f restf below pre post A FR EC EP inner ft rest h jn below_t).
 Qed.
 Print Assumptions C02_vm_runs_loop_throw.
@@ -875,7 +881,7 @@ Theorem C02_vm_runs_loop_breakout : forall s e t v s', zloopleave s e (ABreak t 
       kept fc fc' /\ Forall2 kept rest rest'.
 Proof.
   exact (fun s e t v s' H reg r c f restf below pre post k top fn fc rest jn below_n A FR EC EP =>
-           proj1 (proj2 (proj2 (proj2 (proj2 (proj2 (proj2 (proj2 (proj2 (proj2 vm_runs_z))))))))) s e (ABreak t v) s' H
+           expr_leaves_atm _ _ _ _ (proj1 (proj2 (proj2 (proj2 (proj2 (proj2 (proj2 (proj2 (proj2 (proj2 vm_runs_z))))))))) s e (ABreak t v) s' H)
              reg r c f restf below pre post A FR EC EP k top fn fc rest jn below_n).
 Qed.
 Print Assumptions C02_vm_runs_loop_breakout.
@@ -935,7 +941,7 @@ Print Assumptions C02_vm_runs_for_exit.
 Theorem C02_ref_runs_while_exit : forall cond body s first a s', zwleave cond body s first a s' ->
   exists f0 k0, forall f, f0 <= f -> forall k, k0 <= k -> forall n, first = Nat.eqb n 0 ->
     while_loop_f f cond body k s n = (oa a, s').
-Proof. exact (proj2 (proj2 (proj2 (proj2 (proj2 (proj2 (proj2 (proj2 (proj2 (proj2 (proj2 (proj2 ref_runs_z)))))))))))). Qed.
+Proof. exact (proj1 (proj2 (proj2 (proj2 (proj2 (proj2 (proj2 (proj2 (proj2 (proj2 (proj2 (proj2 (proj2 ref_runs_z))))))))))))). Qed.
 Print Assumptions C02_ref_runs_while_exit.
 Theorem C02_vm_runs_while_exit : forall cond body s first a s', zwleave cond body s first a s' ->
   forall r c f fc frest below loops,
@@ -944,7 +950,7 @@ Theorem C02_vm_runs_while_exit : forall cond body s first a s', zwleave cond bod
     f_exit f = Some (BWhile loops WCond (compile_block cond) (compile_block body)) -> f_die f = false ->
     leaf_first cond -> leaf_first body -> f_ns f = f_ns fc -> f_base fc <= length below ->
     LeavesL a s' r f (fc :: frest) below.
-Proof. exact (proj2 (proj2 (proj2 (proj2 (proj2 (proj2 (proj2 (proj2 (proj2 (proj2 (proj2 (proj2 vm_runs_z)))))))))))). Qed.
+Proof. exact (proj1 (proj2 (proj2 (proj2 (proj2 (proj2 (proj2 (proj2 (proj2 (proj2 (proj2 (proj2 (proj2 vm_runs_z))))))))))))). Qed.
 Print Assumptions C02_vm_runs_while_exit.
 
 (* derivations.  (1) try { { diag_log _x; if (_x > 1) then { throw _x } } forEach [1, 2, 3]; diag_log "dead" } catch { _exception }
@@ -1145,7 +1151,7 @@ Proof. split; vm_compute; reflexivity. Qed.
    variable rules).  C02_switch_body_vm: from any statement boundary of the body the machine's hidden variable follows the
    reference bookkeeping statement by statement, and the frame ends at the end of its code - behind it when a case was chosen.
    The construct itself: with no block chosen it yields nil; otherwise the chosen block's instructions are exchanged into the
-   frame and its value is the value of the construct (the block starts with a push or a variable read and is not left by exitWith). *)
+   frame and its value is the value of the construct (the block starts with a push or a variable read; a block that is left early: section EARLY EXITS OUT OF THE CHOSEN BLOCK OF A SWITCH at the end of this file). *)
 Theorem C02_switch_body_ref : forall s body sw sw', zswitch s body sw sw' ->
   exists f0, forall f, f0 <= f -> eval_switch_body f s body sw = (ONormal RNil, s, sw').
 Proof. exact switch_body_ref. Qed.
@@ -1204,3 +1210,340 @@ Proof.
     - eapply ZPLast. eapply ZSExprV. eapply ZPure. eapply PVarG; reflexivity. }
   reflexivity.
 Qed.
+
+(* ---- EARLY EXITS OUT OF THE CHOSEN BLOCK OF A SWITCH (constructors ZSwitchExit / ZSwitchBreak of zev, ZLSwitchThrow / ZLSwitchBreak of
+   zloopleave in VM/SimExit.v).  The chosen block - a case's or the default's - runs in the frame of the switch body (the machine puts
+   its instructions into that frame, C02_switch_body_vm above).  It may now be left early:
+     by `if c exitWith {..}`: the handler runs as a frame of its own, the switch frame is marked as finished and completes with the
+       handler's value whatever its behaviour still wanted to do - the switch yields the handler's value, nothing behind the exitWith
+       runs (C02_vm_switch_exitwith; the reference semantics says the same: OExit x => x);
+     by breakOut to the name the scope of the switch itself carries (scopeName inside the block names the switch frame): the switch
+       yields the value handed to breakOut (C02_vm_switch_own_breakout);
+     by a throw that a try-catch outside the switch takes, and by breakOut to a scope outside the switch: a switch standing as a statement
+       and left that way is a statement of zthrow / zbreak through ZTLoop / ZKLoop, like a loop (C02_vm_switch_throw,
+       C02_vm_switch_breakout: the state in which the handler starts / execution goes on below the named frame; the switch frame and its
+       part of the operand stack are gone, the reference state with the scope of the switch closed Matches).
+   Premises as for ZSwitchRun: the chosen block starts with a push or a variable read. *)
+Theorem C02_ref_switch_exitwith : forall s n a b v body s1 s2 sw t ts x s4, lower n = "do" -> zev s a (RSwitch v) s1 -> zev s1 b (RCode body) s2 ->
+  zswitch (enter s2 []) body (sw_start v) sw -> sw_target sw = Some (t :: ts) -> leaf_first (t :: ts) ->
+  zblock (enter s2 []) RNil (t :: ts) (BExit x) s4 ->
+  exists f0, forall f, f0 <= f -> eval f s (EBinary n a b) = (ONormal x, pop_scope s4).
+Proof.
+  exact (fun s n a b v body s1 s2 sw t ts x s4 H1 H2 H3 H4 H5 H6 H7 =>
+           proj1 ref_runs_z _ _ _ _ (ZSwitchExit s n a b v body s1 s2 sw t ts x s4 H1 H2 H3 H4 H5 H6 H7)).
+Qed.
+Print Assumptions C02_ref_switch_exitwith.
+Theorem C02_vm_switch_exitwith : forall s n a b v body s1 s2 sw t ts x s4, lower n = "do" -> zev s a (RSwitch v) s1 -> zev s1 b (RCode body) s2 ->
+  zswitch (enter s2 []) body (sw_start v) sw -> sw_target sw = Some (t :: ts) -> leaf_first (t :: ts) ->
+  zblock (enter s2 []) RNil (t :: ts) (BExit x) s4 ->
+  forall r c f rest pre post, Mach s r c f rest -> f_code f = pre ++ compile_expr (EBinary n a b) ++ post -> f_pos f = length pre ->
+    exists r' c' f' rest', Steps r r' /\ Mach (pop_scope s4) r' c' f' rest' /\ c_values c' = cv x :: c_values c /\
+      moved f f' /\ f_pos f' = f_pos f + length (compile_expr (EBinary n a b)) /\ Forall2 kept rest rest'.
+Proof.
+  exact (fun s n a b v body s1 s2 sw t ts x s4 H1 H2 H3 H4 H5 H6 H7 =>
+           proj1 vm_runs_z _ _ _ _ (ZSwitchExit s n a b v body s1 s2 sw t ts x s4 H1 H2 H3 H4 H5 H6 H7)).
+Qed.
+Print Assumptions C02_vm_switch_exitwith.
+Theorem C02_ref_switch_own_breakout : forall s n a b v body s1 s2 sw t ts t0 x s4, lower n = "do" -> zev s a (RSwitch v) s1 -> zev s1 b (RCode body) s2 ->
+  zswitch (enter s2 []) body (sw_start v) sw -> sw_target sw = Some (t :: ts) -> leaf_first (t :: ts) ->
+  zbreak (enter s2 []) RNil (t :: ts) t0 x s4 -> top_name s4 = t0 ->
+  exists f0, forall f, f0 <= f -> eval f s (EBinary n a b) = (ONormal x, pop_scope s4).
+Proof.
+  exact (fun s n a b v body s1 s2 sw t ts t0 x s4 H1 H2 H3 H4 H5 H6 H7 H8 =>
+           proj1 ref_runs_z _ _ _ _ (ZSwitchBreak s n a b v body s1 s2 sw t ts t0 x s4 H1 H2 H3 H4 H5 H6 H7 H8)).
+Qed.
+Print Assumptions C02_ref_switch_own_breakout.
+Theorem C02_vm_switch_own_breakout : forall s n a b v body s1 s2 sw t ts t0 x s4, lower n = "do" -> zev s a (RSwitch v) s1 -> zev s1 b (RCode body) s2 ->
+  zswitch (enter s2 []) body (sw_start v) sw -> sw_target sw = Some (t :: ts) -> leaf_first (t :: ts) ->
+  zbreak (enter s2 []) RNil (t :: ts) t0 x s4 -> top_name s4 = t0 ->
+  forall r c f rest pre post, Mach s r c f rest -> f_code f = pre ++ compile_expr (EBinary n a b) ++ post -> f_pos f = length pre ->
+    exists r' c' f' rest', Steps r r' /\ Mach (pop_scope s4) r' c' f' rest' /\ c_values c' = cv x :: c_values c /\
+      moved f f' /\ f_pos f' = f_pos f + length (compile_expr (EBinary n a b)) /\ Forall2 kept rest rest'.
+Proof.
+  exact (fun s n a b v body s1 s2 sw t ts t0 x s4 H1 H2 H3 H4 H5 H6 H7 H8 =>
+           proj1 vm_runs_z _ _ _ _ (ZSwitchBreak s n a b v body s1 s2 sw t ts t0 x s4 H1 H2 H3 H4 H5 H6 H7 H8)).
+Qed.
+Print Assumptions C02_vm_switch_own_breakout.
+Theorem C02_ref_switch_throw : forall s n a b v body s1 s2 sw t ts y s4, lower n = "do" -> zev s a (RSwitch v) s1 -> zev s1 b (RCode body) s2 ->
+  zswitch (enter s2 []) body (sw_start v) sw -> sw_target sw = Some (t :: ts) -> leaf_first (t :: ts) ->
+  zthrow (enter s2 []) RNil (t :: ts) y s4 ->
+  exists f0, forall f, f0 <= f -> eval f s (EBinary n a b) = (OThrow y, pop_scope s4).
+Proof.
+  exact (fun s n a b v body s1 s2 sw t ts y s4 H1 H2 H3 H4 H5 H6 H7 =>
+           C02_ref_runs_loop_exit _ _ _ _ (ZLSwitchThrow s n a b v body s1 s2 sw t ts y s4 H1 H2 H3 H4 H5 H6 H7)).
+Qed.
+Print Assumptions C02_ref_switch_throw.
+Theorem C02_vm_switch_throw : forall s n a b v body s1 s2 sw t ts y s4, lower n = "do" -> zev s a (RSwitch v) s1 -> zev s1 b (RCode body) s2 ->
+  zswitch (enter s2 []) body (sw_start v) sw -> sw_target sw = Some (t :: ts) -> leaf_first (t :: ts) ->
+  zthrow (enter s2 []) RNil (t :: ts) y s4 ->
+  forall reg r c f restf below pre post inner ft rest h jn below_t,
+    AtM s reg r c f restf below -> Fresh c below ->
+    f_code f = pre ++ compile_expr (EBinary n a b) ++ post -> f_pos f = length pre ->
+    f :: restf = inner ++ ft :: rest -> Forall (fun m => f_err m = None) inner -> f_err ft = Some (ECatch h) ->
+    below = jn ++ below_t -> under jn -> length below_t = f_base ft ->
+    exists r' c' rest' ft0, Steps r r' /\ Forall2 kept rest rest' /\ moved ft ft0 /\
+      Good r' c' /\ quirks r' = ([], 0) /\ c_frames c' = handler_frame ft0 h (cv y) :: rest' /\
+      Match (set_top_vars (drop_scopes (length inner) (pop_scope s4)) [("_exception", y)]) r' (handler_frame ft0 h (cv y) :: rest') /\
+      exists jn', c_values c' = VNil :: jn' ++ below_t /\ under jn'.
+Proof.
+  exact (fun s n a b v body s1 s2 sw t ts y s4 H1 H2 H3 H4 H5 H6 H7 =>
+           C02_vm_runs_loop_throw _ _ _ _ (ZLSwitchThrow s n a b v body s1 s2 sw t ts y s4 H1 H2 H3 H4 H5 H6 H7)).
+Qed.
+Print Assumptions C02_vm_switch_throw.
+Theorem C02_ref_switch_breakout : forall s n a b v body s1 s2 sw t ts t0 x s4, lower n = "do" -> zev s a (RSwitch v) s1 -> zev s1 b (RCode body) s2 ->
+  zswitch (enter s2 []) body (sw_start v) sw -> sw_target sw = Some (t :: ts) -> leaf_first (t :: ts) ->
+  zbreak (enter s2 []) RNil (t :: ts) t0 x s4 -> top_name s4 <> t0 ->
+  exists f0, forall f, f0 <= f -> eval f s (EBinary n a b) = (OBreak t0 x, pop_scope s4).
+Proof.
+  exact (fun s n a b v body s1 s2 sw t ts t0 x s4 H1 H2 H3 H4 H5 H6 H7 H8 =>
+           C02_ref_runs_loop_exit _ _ _ _ (ZLSwitchBreak s n a b v body s1 s2 sw t ts t0 x s4 H1 H2 H3 H4 H5 H6 H7 H8)).
+Qed.
+Print Assumptions C02_ref_switch_breakout.
+Theorem C02_vm_switch_breakout : forall s n a b v body s1 s2 sw t ts t0 x s4, lower n = "do" -> zev s a (RSwitch v) s1 -> zev s1 b (RCode body) s2 ->
+  zswitch (enter s2 []) body (sw_start v) sw -> sw_target sw = Some (t :: ts) -> leaf_first (t :: ts) ->
+  zbreak (enter s2 []) RNil (t :: ts) t0 x s4 -> top_name s4 <> t0 ->
+  forall reg r c f restf below pre post k top fn fc rest jn below_n,
+    AtM s reg r c f restf below -> Fresh c below ->
+    f_code f = pre ++ compile_expr (EBinary n a b) ++ post -> f_pos f = length pre ->
+    find_name t0 (st_scopes (pop_scope s4)) 0 = Some k ->
+    f :: restf = top ++ fn :: fc :: rest -> length top = k ->
+    Forall (fun m => f_base fn <= f_base m) top -> f_base fc <= f_base fn ->
+    below = jn ++ below_n -> length below_n = f_base fn ->
+    exists r' c' fc' rest', Steps r r' /\ Mach (drop_scopes (S k) (pop_scope s4)) r' c' fc' rest' /\ c_values c' = cv x :: below_n /\
+      kept fc fc' /\ Forall2 kept rest rest'.
+Proof.
+  exact (fun s n a b v body s1 s2 sw t ts t0 x s4 H1 H2 H3 H4 H5 H6 H7 H8 =>
+           C02_vm_runs_loop_breakout _ _ _ _ _ (ZLSwitchBreak s n a b v body s1 s2 sw t ts t0 x s4 H1 H2 H3 H4 H5 H6 H7 H8)).
+Qed.
+Print Assumptions C02_vm_switch_breakout.
+(* derivations.  (1) switch (1 + 1) do { case 1 : { 1 }; case 2 : { diag_log "two"; if (true) exitWith { 9 }; diag_log "dead"; 2 } }  yields 9 and
+   logs two only *)
+Definition ex_sw_exit : expr :=
+  EBinary "do" (EUnary "switch" (EBinary "+" (ENum 1) (ENum 1)))
+    (ECode [SExpr (EBinary ":" (EUnary "case" (ENum 1)) (ECode [SExpr (ENum 1)]));
+            SExpr (EBinary ":" (EUnary "case" (ENum 2))
+                     (ECode [SExpr (EUnary "diag_log" (EStr "two"));
+                             SExpr (EBinary "exitWith" (EUnary "if" (EBool true)) (ECode [SExpr (ENum 9)]));
+                             SExpr (EUnary "diag_log" (EStr "dead")); SExpr (ENum 2)]))]).
+Example switch_exitwith_inhabited : exists v s', zev init_state ex_sw_exit v s' /\ v = RNum 9 /\ st_trace s' = ["two"].
+Proof.
+  eexists _, _. split.
+  { eapply ZSwitchExit; [reflexivity|eapply ZSwitchVal; [reflexivity|intros ? ?; discriminate|eapply ZPure; eapply PBin; [eapply PNum|eapply PNum|reflexivity]|split; discriminate]|eapply ZCode| | | |].
+    - eapply ZWCaseSkip; [reflexivity|reflexivity|eapply PNum|reflexivity|]. eapply ZWCaseHit; [reflexivity|reflexivity|eapply PNum|reflexivity].
+    - reflexivity.
+    - eexists _, _. split; [reflexivity|]. left. eexists. reflexivity.
+    - eapply ZBCons.
+      + eapply ZSExprV. eapply ZDiag; [reflexivity|intros ? ?; discriminate|eapply ZPure; eapply PStr|split; discriminate|reflexivity].
+      + eapply ZBExit; [reflexivity| |eapply ZCode|].
+        * eapply ZIf; [reflexivity|intros ? ?; discriminate|eapply ZPure; eapply PBool].
+        * eapply ZBLast. eapply ZSExprV. eapply ZPure. eapply PNum. }
+  split; reflexivity.
+Qed.
+(* (2) try { switch (1 + 1) do { case 2 : { diag_log "two"; throw (2 + 3); 1 } }; diag_log "dead" } catch { _exception + 1 }  yields 6 *)
+Definition ex_sw_throw : expr :=
+  EBinary "catch"
+    (EUnary "try" (ECode [SExpr (EBinary "do" (EUnary "switch" (EBinary "+" (ENum 1) (ENum 1)))
+                                   (ECode [SExpr (EBinary ":" (EUnary "case" (ENum 2))
+                                             (ECode [SExpr (EUnary "diag_log" (EStr "two")); SExpr (EUnary "throw" (EBinary "+" (ENum 2) (ENum 3))); SExpr (ENum 1)]))]));
+                          SExpr (EUnary "diag_log" (EStr "dead"))]))
+    (ECode [SExpr (EBinary "+" (EVar "_exception") (ENum 1))]).
+Example switch_throw_inhabited : exists v s', zev init_state ex_sw_throw v s' /\ v = RNum 6 /\ st_trace s' = ["two"].
+Proof.
+  eexists _, _. split.
+  { eapply ZCatchThrow; [reflexivity|eapply ZTryVal; [reflexivity|intros ? ?; discriminate|eapply ZCode]|eapply ZCode| |].
+    - eapply ZTLoop. eapply ZLSwitchThrow; [reflexivity|eapply ZSwitchVal; [reflexivity|intros ? ?; discriminate|eapply ZPure; eapply PBin; [eapply PNum|eapply PNum|reflexivity]|split; discriminate]|eapply ZCode| | | |].
+      + eapply ZWCaseHit; [reflexivity|reflexivity|eapply PNum|reflexivity].
+      + reflexivity.
+      + eexists _, _. split; [reflexivity|]. left. eexists. reflexivity.
+      + eapply ZTCons.
+        * eapply ZSExprV. eapply ZDiag; [reflexivity|intros ? ?; discriminate|eapply ZPure; eapply PStr|split; discriminate|reflexivity].
+        * eapply ZTThrow; [reflexivity|intros ? ?; discriminate|eapply ZPure; eapply PBin; [eapply PNum|eapply PNum|reflexivity]|split; discriminate].
+    - eapply ZBLast. eapply ZSExprV. eapply ZPure. eapply PBin; [eapply PVarL; reflexivity|eapply PNum|reflexivity]. }
+  split; reflexivity.
+Qed.
+(* (3) r = call { scopeName "o"; switch (0 + 1) do { case 1 : { 7 breakOut "o" } }; diag_log "dead"; 1 }; r  yields 7 *)
+Definition ex_sw_break_prog : list stmt :=
+  [SAssign "r" (EUnary "call" (ECode
+     [SExpr (EUnary "scopeName" (EStr "o"));
+      SExpr (EBinary "do" (EUnary "switch" (EBinary "+" (ENum 0) (ENum 1)))
+               (ECode [SExpr (EBinary ":" (EUnary "case" (ENum 1)) (ECode [SExpr (EBinary "breakOut" (ENum 7) (EStr "o"))]))]));
+      SExpr (EUnary "diag_log" (EStr "dead")); SExpr (ENum 1)]));
+   SExpr (EVar "r")].
+Example switch_breakout_inhabited : exists s', zprog init_state RNone ex_sw_break_prog (RNum 7) s' /\ st_trace s' = [].
+Proof.
+  eexists. split.
+  { eapply ZPCons.
+    - eapply ZSAssign.
+      { discriminate. } { reflexivity. }
+      { eapply ZCallBreak; [reflexivity|intros ? ?; discriminate|eapply ZCode| |].
+        - eapply ZKCons.
+          + eapply ZSExprV. eapply ZScopeName; [reflexivity|intros ? ?; discriminate|eapply ZPure; eapply PStr|reflexivity|reflexivity].
+          + eapply ZKLoop. eapply ZLSwitchBreak; [reflexivity|eapply ZSwitchVal; [reflexivity|intros ? ?; discriminate|eapply ZPure; eapply PBin; [eapply PNum|eapply PNum|reflexivity]|split; discriminate]|eapply ZCode| | | | |].
+            * eapply ZWCaseHit; [reflexivity|reflexivity|eapply PNum|reflexivity].
+            * reflexivity.
+            * eexists _, _. split; [reflexivity|]. left. eexists. reflexivity.
+            * eapply ZKBreakV; [reflexivity|eapply ZPure; eapply PNum|split; discriminate|eapply ZPure; eapply PStr|discriminate].
+            * discriminate.
+        - reflexivity. }
+      { split; discriminate. }
+    - eapply ZPLast. eapply ZSExprV. eapply ZPure. eapply PVarG; reflexivity. }
+  reflexivity.
+Qed.
+(* (4) switch (0 + 1) do { case 1 : { scopeName "w"; 5 breakOut "w"; 0 } }  yields 5: the scope of the switch itself carries the name *)
+Definition ex_sw_own : expr :=
+  EBinary "do" (EUnary "switch" (EBinary "+" (ENum 0) (ENum 1)))
+    (ECode [SExpr (EBinary ":" (EUnary "case" (ENum 1))
+                     (ECode [SExpr (EUnary "scopeName" (EStr "w")); SExpr (EBinary "breakOut" (ENum 5) (EStr "w")); SExpr (ENum 0)]))]).
+Example switch_own_name_inhabited : exists v s', zev init_state ex_sw_own v s' /\ v = RNum 5.
+Proof.
+  eexists _, _. split.
+  { eapply ZSwitchBreak; [reflexivity|eapply ZSwitchVal; [reflexivity|intros ? ?; discriminate|eapply ZPure; eapply PBin; [eapply PNum|eapply PNum|reflexivity]|split; discriminate]|eapply ZCode| | | | |].
+    - eapply ZWCaseHit; [reflexivity|reflexivity|eapply PNum|reflexivity].
+    - reflexivity.
+    - eexists _, _. split; [reflexivity|]. left. eexists. reflexivity.
+    - eapply ZKCons.
+      + eapply ZSExprV. eapply ZScopeName; [reflexivity|intros ? ?; discriminate|eapply ZPure; eapply PStr|reflexivity|reflexivity].
+      + eapply ZKBreakV; [reflexivity|eapply ZPure; eapply PNum|split; discriminate|eapply ZPure; eapply PStr|discriminate].
+    - reflexivity. }
+  reflexivity.
+Qed.
+(* ... and the four programs evaluated inside Coq on the reference semantics and on the VM model *)
+Example switch_exits_ref_and_vm_agree :
+  run_ref 200 [SExpr ex_sw_exit] = "OK:M<two>,V<9>" /\
+  run_final (load (create_rt [] 0 0 (100 * 100) 150) (compile_block [SExpr ex_sw_exit])) = "-1:0:3:60019,M<two>,3:60095,M<VALUE 9>," /\
+  run_ref 200 [SExpr ex_sw_throw] = "OK:M<two>,V<6>" /\
+  run_final (load (create_rt [] 0 0 (100 * 100) 150) (compile_block [SExpr ex_sw_throw])) = "-1:0:3:60019,M<two>,3:60095,M<VALUE 6>," /\
+  run_ref 200 ex_sw_break_prog = "OK:V<7>" /\
+  run_final (load (create_rt [] 0 0 (100 * 100) 150) (compile_block ex_sw_break_prog)) = "-1:0:3:60095,M<VALUE 7>," /\
+  run_ref 200 [SExpr ex_sw_own] = "OK:V<5>" /\
+  run_final (load (create_rt [] 0 0 (100 * 100) 150) (compile_block [SExpr ex_sw_own])) = "-1:0:3:60095,M<VALUE 5>,".
+Proof. repeat split; vm_compute; reflexivity. Qed.
+
+(* ---- AN EXIT RAISED INSIDE AN OPERAND (constructors ZLUn / ZLBinL / ZLBinR / ZLArr / ZLCallU / ZLCallB / ZLThen / ZLThenElse of zloopleave,
+   relations zscopeleave and zelemsleave, ZTAssign / ZTLocal / ZKAssign / ZKLocal of zthrow / zbreak in VM/SimExit.v).  zloopleave s e a s'
+   now reads "the EXPRESSION e is left by a" : a loop or a switch as before, or the operand of a unary operator, the left or right operand of a
+   binary one, an element of an array is left, or e is call {..} / x call {..} / if-then(-else) whose block is left through its scope.  So
+   C02_ref_runs_loop_exit / C02_vm_runs_loop_throw / C02_vm_runs_loop_breakout above speak about all of these, and so do C02_vm_runs_throw /
+   C02_vm_runs_breakout through ZTLoop / ZKLoop and the new statement forms x = e, private _x = e.
+   breakOut is covered in EVERY operand position (C02_vm_operand_breakout): the operands that were already evaluated wait on the operand stack
+   above the named frame's base, and pop_clearing drops them with the regions of the frames it removes - the machine continues below the named
+   frame with exactly the value on what lay below that frame, the abandoned expression leaves nothing behind, its statement has no effect.
+   A throw is covered in the positions in which NOTHING WAITS: operand of a unary operator, left operand, first element, and any nesting of
+   these through call / if-then(-else) - hence the name C02_vm_operand_throw_partial.  The full statement wanted is the one below with the
+   constructors ZLBinR / ZELTl also for AThrow; it is not proved: throw_any pops frames without clearing the stack, the waiting operands
+   stay under the nil the throw pushes, the handler starts on them - harmless on the machine (the handler's frame drops its region when it
+   completes; operand_exits_ref_and_vm_agree evaluates such a program on both sides), but the region invariant of the simulation says
+   "under a region's value lie nils only" (`under`), and widening it to arbitrary leftovers means re-proving the block lemmas of SimBlock /
+   SimCtl / SimExit. *)
+Theorem C02_vm_operand_breakout : forall s e t v s', zloopleave s e (ABreak t v) s' ->
+  forall r c f restf pre post k top fn fc rest jn below_n,
+    Mach s r c f restf -> f_code f = pre ++ compile_expr e ++ post -> f_pos f = length pre ->
+    find_name t (st_scopes s') 0 = Some k ->
+    f :: restf = top ++ fn :: fc :: rest -> length top = k ->
+    Forall (fun m => f_base fn <= f_base m) top -> f_base fc <= f_base fn ->
+    c_values c = jn ++ below_n -> length below_n = f_base fn ->
+    exists r' c' fc' rest', Steps r r' /\ Mach (drop_scopes (S k) s') r' c' fc' rest' /\ c_values c' = cv v :: below_n /\
+      kept fc fc' /\ Forall2 kept rest rest'.
+Proof.
+  exact (fun s e t v s' H r c f restf pre post k top fn fc rest jn below_n MA EC EP =>
+           proj1 (proj2 (proj2 (proj2 (proj2 (proj2 (proj2 (proj2 (proj2 (proj2 vm_runs_z))))))))) s e (ABreak t v) s' H r c f restf pre post MA EC EP k top fn fc rest jn below_n).
+Qed.
+Print Assumptions C02_vm_operand_breakout.
+Theorem C02_vm_operand_throw_partial : forall s e x s', zloopleave s e (AThrow x) s' ->
+  forall r c f restf pre post inner ft rest h jn below_t,
+    Mach s r c f restf -> f_code f = pre ++ compile_expr e ++ post -> f_pos f = length pre ->
+    f :: restf = inner ++ ft :: rest -> Forall (fun m => f_err m = None) inner -> f_err ft = Some (ECatch h) ->
+    c_values c = jn ++ below_t -> under jn -> length below_t = f_base ft ->
+    exists r' c' rest' ft0, Steps r r' /\ Forall2 kept rest rest' /\ moved ft ft0 /\
+      Good r' c' /\ quirks r' = ([], 0) /\ c_frames c' = handler_frame ft0 h (cv x) :: rest' /\
+      Match (set_top_vars (drop_scopes (length inner) s') [("_exception", x)]) r' (handler_frame ft0 h (cv x) :: rest') /\
+      exists jn', c_values c' = VNil :: jn' ++ below_t /\ under jn'.
+Proof.
+  exact (fun s e x s' H r c f restf pre post inner ft rest h jn below_t MA EC EP =>
+           proj1 (proj2 (proj2 (proj2 (proj2 (proj2 (proj2 (proj2 (proj2 (proj2 vm_runs_z))))))))) s e (AThrow x) s' H r c f restf pre post MA EC EP inner ft rest h jn below_t).
+Qed.
+Print Assumptions C02_vm_operand_throw_partial.
+(* a block in a scope of its own (call, then, else) left through that scope, and the elements of an array *)
+Theorem C02_ref_scope_left : forall s vars b a s', zscopeleave s vars b a s' ->
+  exists f0, forall f, f0 <= f -> in_scope_f f s (plain_scope_f s vars) b = (oa a, s').
+Proof. exact (proj1 (proj2 (proj2 (proj2 (proj2 (proj2 (proj2 (proj2 (proj2 (proj2 (proj2 (proj2 (proj2 (proj2 ref_runs_z)))))))))))))). Qed.
+Print Assumptions C02_ref_scope_left.
+Theorem C02_vm_scope_left : forall s vars b a s', zscopeleave s vars b a s' ->
+  forall r1 c0 fc restf,
+    Good r1 (push_value (push_frame c0 (mk_frame (cur_ns c0) (compile_block b) None None (mvars vars))) VNil) -> quirks r1 = ([], 0) ->
+    c_frames c0 = fc :: restf -> Match s r1 (fc :: restf) -> f_base fc <= length (c_values c0) ->
+    Leaves0 a s' r1 fc restf (c_values c0).
+Proof. exact (proj1 (proj2 (proj2 (proj2 (proj2 (proj2 (proj2 (proj2 (proj2 (proj2 (proj2 (proj2 (proj2 (proj2 vm_runs_z)))))))))))))). Qed.
+Print Assumptions C02_vm_scope_left.
+Theorem C02_ref_elements_left : forall s l a s', zelemsleave s l a s' ->
+  exists f0, forall f, f0 <= f -> forall acc, go_arr f s l acc = (oa a, s').
+Proof. exact (proj2 (proj2 (proj2 (proj2 (proj2 (proj2 (proj2 (proj2 (proj2 (proj2 (proj2 (proj2 (proj2 (proj2 ref_runs_z)))))))))))))). Qed.
+Print Assumptions C02_ref_elements_left.
+Theorem C02_vm_elements_left : forall s l a s', zelemsleave s l a s' ->
+  forall r c f restf pre post, Mach s r c f restf ->
+    f_code f = pre ++ flat_map compile_expr l ++ post -> f_pos f = length pre -> Leaves0 a s' r f restf (c_values c).
+Proof. exact (proj2 (proj2 (proj2 (proj2 (proj2 (proj2 (proj2 (proj2 (proj2 (proj2 (proj2 (proj2 (proj2 (proj2 vm_runs_z)))))))))))))). Qed.
+Print Assumptions C02_vm_elements_left.
+(* derivations.  (1) r = call { scopeName "o"; x = [1, 2 + (call { 7 breakOut "o" }), 3]; diag_log "dead"; 1 }; r   yields 7: when breakOut
+   runs, the element 1 and the left operand 2 wait on the operand stack; they go with the regions pop_clearing drops, x is not assigned *)
+Definition ex_operand_break_prog : list stmt :=
+  [SAssign "r" (EUnary "call" (ECode
+     [SExpr (EUnary "scopeName" (EStr "o"));
+      SAssign "x" (EArr [ENum 1;
+                         EBinary "+" (ENum 2) (EUnary "call" (ECode [SExpr (EBinary "breakOut" (ENum 7) (EStr "o"))]));
+                         ENum 3]);
+      SExpr (EUnary "diag_log" (EStr "dead")); SExpr (ENum 1)]));
+   SExpr (EVar "r")].
+Example operand_breakout_inhabited : exists s', zprog init_state RNone ex_operand_break_prog (RNum 7) s' /\ st_trace s' = [] /\ glob_of s' "x" = None.
+Proof.
+  eexists. split.
+  { eapply ZPCons.
+    - eapply ZSAssign.
+      { discriminate. } { reflexivity. }
+      { eapply ZCallBreak; [reflexivity|intros ? ?; discriminate|eapply ZCode| |].
+        - eapply ZKCons.
+          + eapply ZSExprV. eapply ZScopeName; [reflexivity|intros ? ?; discriminate|eapply ZPure; eapply PStr|reflexivity|reflexivity].
+          + eapply ZKAssign. eapply ZLArr. eapply ZELTl; [eapply ZPure; eapply PNum|split; discriminate|].
+            eapply ZELHd. eapply ZLBinR; [eapply ZPure; eapply PNum|].
+            eapply ZLCallU; [reflexivity|intros ? ?; discriminate|eapply ZCode|].
+            eapply ZSLBreak.
+            * eapply ZKBreakV; [reflexivity|eapply ZPure; eapply PNum|split; discriminate|eapply ZPure; eapply PStr|discriminate].
+            * discriminate.
+        - reflexivity. }
+      { split; discriminate. }
+    - eapply ZPLast. eapply ZSExprV. eapply ZPure. eapply PVarG; reflexivity. }
+  split; reflexivity.
+Qed.
+(* (2) try { x = (call { diag_log "in"; throw (2 + 3) }) + 1; diag_log "dead" } catch { _exception }   yields 5: the throw is raised while
+   the left operand of + is evaluated (nothing waits on the stack) *)
+Definition ex_operand_throw : expr :=
+  EBinary "catch"
+    (EUnary "try" (ECode [SAssign "x" (EBinary "+" (EUnary "call" (ECode [SExpr (EUnary "diag_log" (EStr "in"));
+                                                                          SExpr (EUnary "throw" (EBinary "+" (ENum 2) (ENum 3)))]))
+                                                   (ENum 1));
+                          SExpr (EUnary "diag_log" (EStr "dead"))]))
+    (ECode [SExpr (EVar "_exception")]).
+Example operand_throw_inhabited : exists v s', zev init_state ex_operand_throw v s' /\ v = RNum 5 /\ st_trace s' = ["in"].
+Proof.
+  eexists _, _. split.
+  { eapply ZCatchThrow; [reflexivity|eapply ZTryVal; [reflexivity|intros ? ?; discriminate|eapply ZCode]|eapply ZCode| |].
+    - eapply ZTAssign. eapply ZLBinL. eapply ZLCallU; [reflexivity|intros ? ?; discriminate|eapply ZCode|].
+      eapply ZSLThrow. eapply ZTCons.
+      + eapply ZSExprV. eapply ZDiag; [reflexivity|intros ? ?; discriminate|eapply ZPure; eapply PStr|split; discriminate|reflexivity].
+      + eapply ZTThrow; [reflexivity|intros ? ?; discriminate|eapply ZPure; eapply PBin; [eapply PNum|eapply PNum|reflexivity]|split; discriminate].
+    - eapply ZBLast. eapply ZSExprV. eapply ZPure. eapply PVarL; reflexivity. }
+  split; reflexivity.
+Qed.
+(* ... both programs evaluated inside Coq on the reference semantics and on the VM model; and - for the part that is NOT proved - the two
+   sides also agree on a throw raised while an operand waits:  try { [1, call { throw (2 + 3) }] } catch { _exception }  yields 5 on both *)
+Definition ex_pending_throw : expr :=
+  EBinary "catch" (EUnary "try" (ECode [SExpr (EArr [ENum 1; EUnary "call" (ECode [SExpr (EUnary "throw" (EBinary "+" (ENum 2) (ENum 3)))])])]))
+                  (ECode [SExpr (EVar "_exception")]).
+Example operand_exits_ref_and_vm_agree :
+  run_ref 200 ex_operand_break_prog = "OK:V<7>" /\
+  run_final (load (create_rt [] 0 0 (100 * 100) 150) (compile_block ex_operand_break_prog)) = "-1:0:3:60095,M<VALUE 7>," /\
+  run_ref 200 [SExpr ex_operand_throw] = "OK:M<in>,V<5>" /\
+  run_final (load (create_rt [] 0 0 (100 * 100) 150) (compile_block [SExpr ex_operand_throw])) = "-1:0:3:60019,M<in>,3:60095,M<VALUE 5>," /\
+  run_ref 200 [SExpr ex_pending_throw] = "OK:V<5>" /\
+  run_final (load (create_rt [] 0 0 (100 * 100) 150) (compile_block [SExpr ex_pending_throw])) = "-1:0:3:60095,M<VALUE 5>,".
+Proof. repeat split; vm_compute; reflexivity. Qed.
